@@ -237,22 +237,27 @@ def compileOps (b : Backend) : FS → List Op → List Step × Option Err
 /-! ## PulseStorage level: collecting the transaction -/
 
 /-- a serializable with its sub-serializables in the order the JSON encoder meets them.
+`oid`: identity of the Python object (a shared sub-template occurs several times with the same `oid`);
 `tok`: token of the document a named node serializes to; `ser = false`: its serialization data holds an
 object the encoder cannot serialize; `reused`: the object is the one the storage already caches under this
 identifier -/
 inductive Node where
-  | mk (id : Option Id) (tok : Nat) (ser : Bool) (reused : Bool) (children : List Node)
+  | mk (id : Option Id) (oid : Nat) (tok : Nat) (ser : Bool) (reused : Bool) (children : List Node)
   deriving Repr
 
-/-- `_transaction_storage[i] = entry` (a dict: an existing key keeps its position) -/
-def txnSet : List (Id × Data) → Id → Data → List (Id × Data)
-  | [], i, d => [(i, d)]
-  | (j, e) :: r, i, d => if j = i then (j, d) :: r else (j, e) :: txnSet r i d
+/-- `_transaction_storage`: identifier, object identity, serialization — in insertion order -/
+abbrev TxnStore := List (Id × Nat × Data)
+
+def TxnStore.oid? : TxnStore → Id → Option Nat
+  | [], _ => none
+  | (j, o, _) :: r, i => if j = i then some o else TxnStore.oid? r i
+
+def TxnStore.writes (t : TxnStore) : List (Id × Data) := t.map (fun e => (e.1, e.2.2))
 
 mutual
 /-- the sub-serializables of one node, in the order the encoder meets them: references of the produced
 document and the transaction storage afterwards -/
-def encodeChildren (present : Id → Bool) : List Node → List (Id × Data) → Except Err (List Id × List (Id × Data))
+def encodeChildren (present : Id → Bool) : List Node → TxnStore → Except Err (List Id × TxnStore)
   | [], t => .ok ([], t)
   | c :: cs, t =>
     match encodeChild present c t with
@@ -262,38 +267,47 @@ def encodeChildren (present : Id → Bool) : List Node → List (Id × Data) →
       | .error e => .error e
       | .ok (r2, t2) => .ok (r1 ++ r2, t2)
 /-- `JSONSerializableEncoder.default(o)` -/
-def encodeChild (present : Id → Bool) : Node → List (Id × Data) → Except Err (List Id × List (Id × Data))
-  | .mk (some i) tok ser reused children, t =>
+def encodeChild (present : Id → Bool) : Node → TxnStore → Except Err (List Id × TxnStore)
+  | .mk (some i) oid tok ser reused children, t =>
     if present i then
       (if reused then .ok ([i], t) else .error .clash)
     else
       -- `self.storage[i] = o` → `__setitem__` → nested `overwrite(i, o)`
-      if !ser then .error .typeError else
-      match encodeChildren present children t with
-      | .error e => .error e
-      | .ok (refs, t') => .ok ([i], txnSet t' i (.doc tok refs))
-  | .mk none _ ser _ children, t =>
+      match t.oid? i with
+      | some o => if o = oid then .ok ([i], t) else .error .clash   -- already collected / taken by another object
+      | none =>
+        if !ser then .error .typeError else
+        match encodeChildren present children t with
+        | .error e => .error e
+        | .ok (refs, t') =>
+          if (t'.oid? i).isSome then .error .clash   -- a sub-serializable of `o` took `o`'s identifier
+          else .ok ([i], t' ++ [(i, oid, .doc tok refs)])
+  | .mk none _ _ ser _ children, t =>
     -- anonymous: embedded into the parent's document
     if !ser then .error .typeError else encodeChildren present children t
 end
 
-/-- `encoder.encode(node.get_serialization_data())` of the top-level node -/
-def encodeNode (present : Id → Bool) : Node → List (Id × Data) → Except Err (List Id × List (Id × Data))
-  | .mk _ _ ser _ children, t =>
-    if !ser then .error .typeError else encodeChildren present children t
-
 def Node.tok : Node → Nat
-  | .mk _ tok _ _ _ => tok
+  | .mk _ _ tok _ _ _ => tok
 def Node.id : Node → Option Id
-  | .mk id _ _ _ _ => id
+  | .mk id _ _ _ _ _ => id
+def Node.oid : Node → Nat
+  | .mk _ oid _ _ _ _ => oid
+def Node.ser : Node → Bool
+  | .mk _ _ _ ser _ _ => ser
 def Node.reused : Node → Bool
-  | .mk _ _ _ r _ => r
+  | .mk _ _ _ _ r _ => r
+def Node.children : Node → List Node
+  | .mk _ _ _ _ _ c => c
 
 /-- top-level `PulseStorage.overwrite(i, node)`: the transaction storage in insertion order -/
 def collect (present : Id → Bool) (i : Id) (n : Node) : Except Err (List (Id × Data)) :=
-  match encodeNode present n [] with
+  if !n.ser then .error .typeError else
+  match encodeChildren present n.children [] with
   | .error e => .error e
-  | .ok (refs, t) => .ok (txnSet t i (.doc n.tok refs))
+  | .ok (refs, t) =>
+    if (t.oid? i).isSome then .error .clash   -- a sub-serializable took the identifier of the stored object
+    else .ok (t.writes ++ [(i, .doc n.tok refs)])
 
 inductive Txn where
   | store (ws : List (Id × Data))   -- an already collected transaction: `put(id, doc, overwrite=True)` each, then publish
@@ -460,13 +474,14 @@ def backendOf? : Sexp → Option Backend
   | _ => none
 
 partial def nodeOf? : Sexp → Option Node
-  | .list [.atom "n", i, t, ser, reused, .list ch] => do
+  | .list [.atom "n", i, oid, t, ser, reused, .list ch] => do
     let id ← (match i with | .atom "-" => some none | x => (nat? x).map some)
+    let oid ← nat? oid
     let t ← nat? t
     let ser ← bool? ser
     let reused ← bool? reused
     let ch ← ch.mapM nodeOf?
-    some (.mk id t ser reused ch)
+    some (.mk id oid t ser reused ch)
   | _ => none
 
 def opOf? : Sexp → Option Op
